@@ -29,6 +29,12 @@ package memory
 //@   option safety slice,index
 //@   ensures @window err == nil && len(res) > 0 ==> 0 <= from && from <= to && to <= len(stores) && len(res) == to - from && to == min(len(stores), from + pageSize) && pageSize > 0
 //@   ensures @token err == nil && len(res) > 0 ==> (token == "" <==> to == len(stores)) && (token != "" ==> token == itoa(to))
+// the page is cut from the list as it was SORTED (by id): nothing is appended or re-filtered after the sort
+//@   ensures @cutFromSorted err == nil && len(res) > 0 ==> sortedLast
+//@   monitor order
+//@     ghost sortedLast = false
+//@     after call sort.SliceStable | sort.Slice : sortedLast = true
+//@     after call builtin.append : sortedLast = false
 
 // following tokens visits every index exactly once: pure arithmetic over the window contract above
 //@ lemma pages_partition(n int, p int, f int)
